@@ -15,7 +15,7 @@ L(xs) == DList(xs)
 D_a == MacroDef("@a", <<>>, L(<<S("push")>>))
 D_s == MacroDef("@s", <<>>, S("mov"))
 D_other == MacroDef("@other", <<>>, L(<<S("nop")>>))
-Refs == {"@a", "@s", "@x"}                       \* @x has no definition
+Refs == {"@a", "@s", "@x", "@x-y", "@a.b"}       \* @x, @x-y and @a.b have no definition
 User(r) == MacroDef("@u", <<>>, L(<<DMap1("$and", L(<<S(r), S("ret")>>))>>))
 
 Positions(r) ==
